@@ -99,6 +99,7 @@ def run(tier):
     vlib.build('plain')
     files = zoo.standard_files()
     files.update(zoo.large_files())          # links > CHUNKSIZE: quick explores them to depth 2 only, thorough to the fix-point
+    files.update(zoo.mux_files())            # multiplexed links with packets split over two pages
     exe, listfile, models = seekgraph.load_models(files)
     t_end = time.time() + (240 if tier == 'quick' else 1500)
     tot_states = tot_trans = 0
@@ -155,6 +156,7 @@ def replay(path):
     vlib.build('plain')
     files = zoo.standard_files()
     files.update(zoo.large_files())
+    files.update(zoo.mux_files())
     exe, listfile, models = seekgraph.load_models(files)
     fm = [m for m in models if m.name == r['replay']['file']][0]
     out = vlib.run_cases(exe, [f"{fm.idx} s - plin " + ' '.join(r['replay']['ops'])], ['--files', listfile], jobs=1)
